@@ -437,7 +437,10 @@ func (g *dataGen) degenerateName(valid []string) string {
 	if len(valid) > 0 {
 		v = valid[g.draw(len(valid), "dnv")]
 	}
-	c := []string{"", "", "", " ", "null", strings.ToLower(v), v + " ", " " + v, "\u0000", v + "\u0000", "__typename", strings.ToUpper(v) + "_"}
+	if g.draw(2, "dnempty") == 0 {
+		return "" // GetStringBytes yields a non-nil EMPTY slice for it: neither absent nor a name
+	}
+	c := []string{" ", "null", strings.ToLower(v), v + " ", " " + v, "\u0000", v + "\u0000", "__typename", strings.ToUpper(v) + "_"}
 	return c[g.draw(len(c), "dn")]
 }
 
